@@ -79,7 +79,7 @@ func init() {
 		PID: "C02", PLevel: "exploration",
 		RuleText: "scenario = both engines, 1-3 sources sharing one persister, persister delay 0.1-20 ms and bundle 1-100 (debounce, bundle and forced flushes all occur), injected store faults on the flush path (every k-th / the n-th transactional Set or Commit of a connector key fails; commits delayed), stop at a PRNG-chosen event index. Obligations: every source ack must be preceded by a successful commit whose snapshot holds that position or a later one; every commit snapshot must not move a stored position backwards or to empty; every record at or before a newly stored position must have been handled before that commit. Non-trivial: >=1 ack judged and >=2 flush commits; distinct = distinct (engine, topology, fault kind, thresholds, whether a fault fired).",
 		Assume:   []string{"durable = committed to the database.DB handed to the engine (faultdb over the in-memory store); the store's own crash atomicity is trusted", "a commit and its snapshot are logged atomically under the store wrapper's commit lock"},
-		Quick:    320, Thorough: 12000,
+		Quick:    320, Thorough: 3200,
 		PointBias: []string{"connector.persister.before-commit", "connector.persister.after-commit", "connector.persister.callback", "connector.source.ack", "funnel.worker.ack", "funnel.worker.nack", "funnel.multiack.ack", "funnel.multiack.nack"},
 		Anchors:   []string{"pkg/connector/source.go", "pkg/connector/persister.go", "pkg/connector/store.go", "pkg/connector/service.go"},
 		Gen:       gen, Judge: judge,
